@@ -142,7 +142,15 @@ def run_case(df, meta):
         # continuous_bound (default 0.0005) deliberately moves the extreme outcomes inwards; the identity is
         # about the estimator without that documented truncation, so it is set to a value nothing reaches
         dfc = df.copy()
-        tm = TMLE(dfc, 'A', 'Y', continuous_bound=1e-10) if otype != 'binary' else TMLE(dfc, 'A', 'Y')
+        # ... alternately a tiny bound and exactly 0.0 ("no truncation"; valid unless a whole stratum-by-arm cell sits on the
+        # minimum or maximum, where the unit-scale prediction would be 0 or 1)
+        cb = 1e-10
+        if otype != 'binary' and meta['n'] % 2 == 0:
+            cm = df.dropna(subset=['Y']).groupby(['S', 'A'])['Y'].mean()
+            if float(cm.min()) > float(df['Y'].min()) and float(cm.max()) < float(df['Y'].max()):
+                cb = 0.0
+        out['tmle_cb'] = cb
+        tm = TMLE(dfc, 'A', 'Y', continuous_bound=cb) if otype != 'binary' else TMLE(dfc, 'A', 'Y')
         ec.scramble(dfc)
         tm.exposure_model(satL, print_results=False)
         if miss:
@@ -394,6 +402,8 @@ def run_cases(ctx, fails, cases):
         ctx.count('weighted rows with a rare-treatment stratum: %s' % bool(meta.get('rare_treatment')))
         ctx.count('missing outcomes + saturated missing model: %s%s' % (bool(meta.get('missing')), ' (weighted rows)' if meta.get('missing') and meta.get('weighted') else ''))
         ctx.count('displays/diagnostics/plots called around fit(): %s' % out.get('poked'))
+        if meta['outcome'] == 'normal' and 'tmle_cb' in out:
+            ctx.count('TMLE continuous_bound=%r' % out['tmle_cb'])
         ctx.nontriv([meta, df['Y'].tolist(), df['A'].tolist()])
         ctx.sample({'n': meta['n'], 'arities': meta['arities'], 'outcome': meta['outcome'],
                     'iptw_population_unstab': out.get('iptw', {}).get((False, 'population')),
